@@ -94,6 +94,14 @@ Theorem C07_string_block_roundtrip : forall (cc : smode -> list Z -> list Z) (cd
 Proof. exact string_block_roundtrip. Qed.
 Print Assumptions C07_string_block_roundtrip.
 
+(* the deprecated version-1 string packing (decode only; reachable from files written by older versions): the version
+   dispatch recognises it (its first word is a data length below the version words) and the block decodes to exactly
+   its strings, for any number of strings *)
+Theorem C07_string_block_v1_roundtrip : forall (cd : smode -> list Z -> option (list Z)) ss,
+  8 + len (concat ss) + 4 * len ss < M32 - 3 -> string_dec cd (string_block_v1 ss) = Some ss.
+Proof. exact string_block_v1_roundtrip. Qed.
+Print Assumptions C07_string_block_v1_roundtrip.
+
 (* ---- column segment: one-row mode and column header (full / empty / null bitmap with any offset and padding) ---- *)
 Theorem C07_segment_roundtrip : forall t m block rows, seg_applicable m rows = true ->
   seg_dec t (len rows) (seg_enc_with t m block rows) = Some (validity rows, seg_payload m block rows).
